@@ -30,6 +30,13 @@ def run(ctx):
         "execution must show exactly what the same bytes showed alone (session?, lines written, every header of every written "
         "message, next-layer bytes, security state), and a process-fatal event (e.g. 'concurrent map writes') is attributed by the "
         "driver to the group whose replayable descriptor was marked before the goroutines started. "
+        "Cross-message inputs (family 'cross-message', both roles): well-formed two-message exchanges in which one message carries "
+        "headers that only matter in the other (Connection / Upgrade / Security / Protocol-Version / Capabilities in the announce "
+        "resp. the 200, Accepts-Protocol-Version / Capabilities / Security in the upgrade resp. the 101), with the right value, a wrong "
+        "value or any variant, while the judged message has its own header right, wrong or missing; the model judges every message "
+        "on its own headers. Long lists (family 'long-list'): Accepts-Protocol-Version (server) and Capabilities (client) lists of "
+        "every length 1..40 with the significant entry (v2.0.0 / StartTLS) at every position or absent, mixed separators, plus lists "
+        "of 41..300 entries; lists in Connection / Upgrade / Protocol-Version run without the model (form left open). "
         "A case is distinct by (role, configuration, input bytes, split); non-trivial = the code wrote at least one line or "
         "established a session.",
         ["net/textproto is used by the harness to delimit the two messages of an input (same library as the code under test)",
@@ -40,5 +47,6 @@ def run(ctx):
          "concurrent groups: the interleaving of the goroutines is whatever the Go scheduler produces (not seeded); a group counts as "
          "non-trivial only if at least two handshakes were observed in flight at the same moment; a replay runs 5x the rounds"],
         extra_cov={"exhaustive": False,
-                   "exhaustive_subspace": "every prefix (truncation at every offset) of the fixed valid exchanges, both roles"},
+                   "exhaustive_subspace": "every prefix (truncation at every offset) of the fixed valid exchanges, both roles; every "
+                   "(list length 1..40, position 0..length of the significant entry) for Accepts-Protocol-Version and Capabilities"},
         min_distinct=1000 if not ctx.replay else 1)
